@@ -379,6 +379,11 @@ func ruleT3(c *Ctx) {
 					if fn == balanceFn {
 						hasBalance = true
 					}
+					// a check is a function that (transitively) produces diagnostics or verdicts; a helper that merely
+					// reads the transaction (its payee name, its tags for an index) is not
+					if fn != balanceFn && !producesDiagnostics(c, info, fn, 0, map[*types.Func]bool{}) {
+						return true
+					}
 					if _, dup := e.checks[fn.Name()]; !dup {
 						e.checks[fn.Name()] = strings.Join(guards, " && ")
 					}
@@ -1341,4 +1346,47 @@ func postingFieldsBehindEmission(c *Ctx, fd *ast.FuncDecl) map[string]bool {
 		}
 	}
 	return out
+}
+
+// producesDiagnostics: the function returns diagnostics / a balance verdict, builds an analyzer.Diagnostic, or
+// calls a function of its package that does.
+func producesDiagnostics(c *Ctx, info *types.Info, fn *types.Func, depth int, seen map[*types.Func]bool) bool {
+	if seen[fn] || depth > 3 {
+		return false
+	}
+	seen[fn] = true
+	sig, _ := fn.Type().(*types.Signature)
+	if sig != nil {
+		for i := 0; i < sig.Results().Len(); i++ {
+			ts := types.TypeString(sig.Results().At(i).Type(), nil)
+			if strings.Contains(ts, "analyzer.Diagnostic") || strings.Contains(ts, "analyzer.BalanceResult") {
+				return true
+			}
+		}
+		for i := 0; i < sig.Params().Len(); i++ {
+			ts := types.TypeString(sig.Params().At(i).Type(), nil)
+			if strings.Contains(ts, "analyzer.Diagnostic") || strings.Contains(ts, "analyzer.AnalysisResult") {
+				return true // appends to a list / result it is handed
+			}
+		}
+	}
+	decl := c.P.declOf[fn]
+	if decl == nil || decl.Body == nil {
+		return false
+	}
+	found := false
+	ast.Inspect(decl.Body, func(n ast.Node) bool {
+		switch x := n.(type) {
+		case *ast.CompositeLit:
+			if t := info.TypeOf(x); t != nil && strings.Contains(types.TypeString(t, nil), "analyzer.Diagnostic") {
+				found = true
+			}
+		case *ast.CallExpr:
+			if f2, ok := calleeOf(info, x).(*types.Func); ok && f2.Pkg() == fn.Pkg() && producesDiagnostics(c, info, f2, depth+1, seen) {
+				found = true
+			}
+		}
+		return !found
+	})
+	return found
 }
